@@ -189,6 +189,17 @@ def extra(rng, tier):
         push(base, mk([x * cx for x in xs], flat, [q * cx for q in qs], scale_bc(bc, one / cx, one / (cx * cx)) if bc else None),
              lambda v: v, f"axis and queries x {cx}")
         push(base, mk([x + d for x in xs], flat, [q + d for q in qs], bc), lambda v: v, f"axis and queries shifted by {d}")
+        if S == "F" and kind == "spl" and isinstance(bc, str) and bc in ("nak", "nat", "cla", "per"):
+            # units in which the mean knot distance lies next to a round decimal magnitude (1e-18 .. 1e18), changed by a small power of two
+            # that carries it across (seed C15-r8m1: an axis normalised before the solve only beyond a threshold on the mean spacing — one
+            # of the two problems is solved on another axis, the results differ in the last bits)
+            m_ = rng.choice([-18, -15, -12, -9, -6, 6, 9, 12, 15, 18])
+            hbar = (xs[-1] - xs[0]) / (len(xs) - 1)
+            k0 = round(math.log2(10.0 ** m_ / hbar)) + rng.choice([-1, 0, 0, 1])
+            u0 = 2.0 ** k0
+            cxx = 2.0 ** rng.choice([-6, -3, -2, -1, 1, 2, 3, 6])
+            push(mk([x * u0 for x in xs], flat, [q * u0 for q in qs], bc), mk([x * u0 * cxx for x in xs], flat, [q * u0 * cxx for q in qs], bc),
+                 lambda v: v, f"axis in units of 2^{k0}, then axis and queries x {cxx}")
         if S == "F" and kind == "lin":
             sg = rng.choice([1, -1])
             c2, cx2 = (2.0 ** (sg * rng.randint(520, 900)) for _ in range(2))
